@@ -475,6 +475,35 @@ def proj_fn(fn, k):
     return None
 
 
+def _shape_name(n: str) -> bool:
+    n = n.lower()
+    return n.endswith("shape") or n.endswith("shapes")
+
+
+def is_seq_term(t) -> bool:
+    """Is the term known to denote a Python sequence (tuple / list), so that `+` concatenates?  Literal sequences,
+    concatenations, shape attributes / shape-named symbols (the repository's naming convention for tuples of ints),
+    slices of those, and conditionals with such a branch."""
+    h = t[0]
+    if h in ("tuple", "list", "concat", "repeat"):
+        return True
+    if h == "attr":
+        return _shape_name(t[2])
+    if h == "sym":
+        return _shape_name(t[1])
+    if h == "sub":
+        if t[2][0] == "slice":
+            return is_seq_term(t[1])
+        # an element of a sequence of shapes (shapes[0]) is a shape
+        return t[1][0] in ("attr", "sym") and _shape_name(t[1][2] if t[1][0] == "attr" else t[1][1]) and \
+            (t[1][2] if t[1][0] == "attr" else t[1][1]).lower().endswith("shapes")
+    if h == "ite":
+        return is_seq_term(t[2]) or is_seq_term(t[3])
+    if h == "call" and t[1] in (("ext", "builtins.tuple"), ("ext", "builtins.list"), ("ext", "builtins.sorted")):
+        return True
+    return False
+
+
 def proj_sub(obj, idx):
     if is_const(idx) and isinstance(idx[1], int) and not isinstance(idx[1], bool):
         return proj(obj, idx[1])
@@ -528,6 +557,8 @@ _sig("jax.numpy.array_split", "ary indices_or_sections axis", axis=0)
 _sig("jax.numpy.squeeze", "a axis", axis=None)
 _sig("jax.numpy.reshape", "a shape")
 _sig("jax.numpy.searchsorted", "a v side", side="left")
+_sig("jax.numpy.digitize", "x bins right", right=False)
+_sig("jax.numpy.nan_to_num", "x copy nan posinf neginf", copy=True)
 _sig("jax.numpy.pad", "array pad_width mode", mode="constant")
 _sig("jax.numpy.full", "shape fill_value dtype", dtype=None)
 _sig("jax.numpy.zeros", "shape dtype", dtype=None)
@@ -636,6 +667,17 @@ def norm_call(f, args, kwargs, prog: Program | None = None):
                 if k in kwargs and kwargs[k] == dv:
                     del kwargs[k]
         # structural aliases
+        if q == "jax.numpy.digitize" and not args and {"x", "bins"} <= set(kwargs) <= {"x", "bins", "right"} and \
+                is_const(kwargs.get("right", C(False))):
+            # numpy: for increasing bins, digitize(x, bins, right=r) == searchsorted(bins, x, side='left' if r else 'right')
+            side = "left" if kwargs.get("right", C(False))[1] else "right"
+            return norm_call(("ext", "jax.numpy.searchsorted"), (), {"a": kwargs["bins"], "v": kwargs["x"], "side": C(side)}, prog)
+        if q == "jax.numpy.nan_to_num" and not args and set(kwargs) == {"x", "nan", "posinf", "neginf"} and \
+                kwargs["posinf"] == ("ext", "jax.numpy.inf") and kwargs["neginf"] == mk_neg(("ext", "jax.numpy.inf")):
+            # infinities kept: only NaN is replaced
+            v = kwargs["x"]
+            return norm_call(("ext", "jax.numpy.where"), (), {
+                "condition": norm_call(("ext", "jax.numpy.isnan"), (), {"a": v}, prog), "x": kwargs["nan"], "y": v}, prog)
         if q == "jax.numpy.negative" and "a" in kwargs and len(kwargs) == 1:
             return mk_neg(kwargs["a"])
         if q == "jax.numpy.square" and "a" in kwargs and len(kwargs) == 1:
@@ -1516,7 +1558,8 @@ class Interp:
         if isinstance(op, ast.Add):
             if a[0] in ("tuple", "list") and b[0] == a[0]:
                 return (a[0], a[1] + b[1])
-            if a[0] in ("tuple", "list") or b[0] in ("tuple", "list"):
+            if is_seq_term(a) or is_seq_term(b):
+                # `+` on shapes / tuples / lists is concatenation: order matters
                 return ("concat", a, b)
             if is_const(a) and isinstance(a[1], str) or is_const(b) and isinstance(b[1], str):
                 return ("concat", a, b)
@@ -1603,6 +1646,16 @@ class Interp:
             return self.call(f.fn, list(f.args) + list(args), kw, ctx, node)
         if f[0] == "ext":
             q = f[1]
+            if q in ("functools.reduce", "itertools.accumulate") and args and not isinstance(args[0], tuple):
+                # an iteration combinator the engine does not unfold: a `raise` inside its callback is recorded as
+                # such (when it fires cannot be related to a guard of the enclosing function)
+                n0 = len(self.guards)
+                a0 = self.as_term(args[0])
+                for gi in range(n0, len(self.guards)):
+                    g = self.guards[gi]
+                    if g[0] in ("raise-if", "raise-in-loop"):
+                        self.guards[gi] = ("raise-in-callback",) + tuple(g[1:])
+                args = [a0] + list(args[1:])
             if q == "functools.partial" and args:
                 return Partial(args[0], args[1:], kwargs)
             if q == "jax.lax.scan":
